@@ -239,6 +239,8 @@ class Contract:
                 g = f(c)
             except Exception:
                 continue      # mentions the result or a local: only available at exits
+            if not z3.is_expr(g) or z3.is_false(g):
+                continue      # `c.result == ...` with no result yet evaluates to a Python / literal False: not an entry fact
             st.assume(g)
             eng.used_lemmas.add(nm)
 
